@@ -75,6 +75,7 @@ pub fn bfs(sc: &dyn Scenario, lim: &BfsLimits, violations: &mut Vec<Violation>) 
                 }
                 let mut h = frontier[i].clone();
                 h.push(alphabet[j].clone());
+                let _g = crate::watchdog::enter(|| format!("{}: {}", sc.name(), crate::world::hist_str(&h)));
                 Some(sc.eval(&h))
             })
             .collect();
